@@ -54,6 +54,8 @@ async def _run(case):
     dropped_types = []
     stopped = []
     closed_ops = []
+    probes = []
+    healed_mid = []
     flags = {"reset_overtook_data": False, "reset_hit_reused_id": False}
     freed = {0: set(), 1: set()}
     ranks = {0: {}, 1: {}}
@@ -133,6 +135,18 @@ async def _run(case):
                         sim.channels[op[1]][op[2]].bufferedAmountLowThreshold = op[3]
                     except ValueError:
                         pass
+            elif t == 11:
+                # probe: one small unique message on every open channel, both directions
+                for ep_ in (0, 1):
+                    for i_, ch_ in enumerate(sim.channels[ep_]):
+                        if ch_.readyState == "open":
+                            counter = len(sim.sends) + 1
+                            v = ("probe-%06d" % (counter + 1000 * ep_)).encode()
+                            if sim.send(ep_, i_, v):
+                                probes.append([ep_, i_, ["b", v.hex()]])
+                await sim.drain()
+            elif t == 12:
+                healed_mid.append(await sim.heal())
             elif t == 10:
                 await sim.guard(op[1], sim.eps[op[1]].stop())
                 await sim.drain()
@@ -215,6 +229,8 @@ async def _run(case):
             "dropped_types": dropped_types,
             "stopped": stopped,
             "closed_ops": closed_ops,
+            "probes": probes,
+            "healed_mid": healed_mid,
             "reset_overtook_data": flags["reset_overtook_data"],
             "reset_hit_reused_id": flags["reset_hit_reused_id"],
             "ranks": [[ranks[ep].get(i, []) for i in range(len(sim.channels[ep]))] for ep in (0, 1)],
